@@ -353,6 +353,56 @@ func c18(p *P) {
 				}
 			}
 		}
+		// idiom: maps.DeleteFunc(m, func(k, _) bool { …; return k < instance })
+		nStd := 0
+		for _, cs := range callSites(fn, false) {
+			if !strings.HasPrefix(cs.Callee(), "maps.DeleteFunc") || len(cs.Common.Args) != 2 {
+				continue
+			}
+			mc, ok := cs.Common.Args[1].(*ssa.MakeClosure)
+			if !ok {
+				continue
+			}
+			pred, ok := mc.Fn.(*ssa.Function)
+			if !ok || len(pred.Params) < 1 {
+				continue
+			}
+			okPred := true
+			for _, rel := range []Rel{RelEQ, RelGT} {
+				inj := cmpRel("", `^\$0$`, `^\$\^2$`, rel).Match(pred)
+				if len(inj) == 0 {
+					okPred = false
+					break
+				}
+				sp := RunSCCP(pred, inj)
+				for _, ret := range returnsOf(pred) {
+					if sp.Reachable(ret) && len(ret.Results) == 1 {
+						if av := sp.get(ret.Results[0]); !(av.K == Cst && av.C.String() == "false") {
+							okPred = false
+						}
+					}
+				}
+			}
+			// and it does hold below the bound
+			if inj := cmpRel("", `^\$0$`, `^\$\^2$`, RelLT).Match(pred); len(inj) > 0 {
+				sp := RunSCCP(pred, inj)
+				for _, ret := range returnsOf(pred) {
+					if sp.Reachable(ret) && len(ret.Results) == 1 {
+						if av := sp.get(ret.Results[0]); !(av.K == Cst && av.C.String() == "true") {
+							okPred = false
+						}
+					}
+				}
+			}
+			nStd++
+			r.Check(okPred, "C18.R4", "RemoveChainsByInstance: delete from "+cs.Arg(0)+" exactly the keys strictly below the bound", p.c.InstrPos(cs.Instr), "maps.DeleteFunc predicate is key < instance", "the pruning predicate is not key < instance")
+			if okPred {
+				seen[cs.Arg(0)] = true
+			}
+		}
+		if nStd > 0 {
+			r.OK("C18.R4", "RemoveChainsByInstance: pruning through maps.DeleteFunc visits every instance", p.c.Pos(fn.Pos()), fmt.Sprintf("%d maps", nStd))
+		}
 		r.Check(seen["$0.chainsWanted"] && seen["$0.chainsDiscovered"], "C18.R4", "RemoveChainsByInstance: prunes both maps below the given instance", p.c.Pos(fn.Pos()), "wanted and discovered", fmt.Sprintf("pruned maps (with the instance parameter as bound): %v", seen))
 	}
 
